@@ -41,23 +41,75 @@ func (c *Ctx) statParams() (docs, freq int, site ssa.CallInstruction) {
 	pf := c.MustFn("persistFields")
 	wu := c.MustFn("writeUvarints")
 	docs, freq = -1, -1
-	for _, s := range c.callsTo(wu) {
-		if s.Parent() != pf {
-			continue
+	// where does value v (in function f) go: (writeUvarints call, position among its values)
+	type dest struct {
+		call ssa.CallInstruction
+		pos  int
+		n    int
+	}
+	var flow func(f *ssa.Function, v ssa.Value, depth int) []dest
+	flow = func(f *ssa.Function, v ssa.Value, depth int) []dest {
+		var out []dest
+		if depth > 2 {
+			return out
 		}
-		vals := varargValues(s.Common().Args[1])
-		if len(vals) != 2 {
-			continue
+		for _, b := range f.Blocks {
+			for _, ins := range b.Instrs {
+				ci, ok := ins.(ssa.CallInstruction)
+				if !ok {
+					continue
+				}
+				sc := ci.Common().StaticCallee()
+				if sc == nil {
+					continue
+				}
+				if sc == wu {
+					vals := varargValues(ci.Common().Args[1])
+					for k, x := range vals {
+						if x == v {
+							out = append(out, dest{ci, k, len(vals)})
+						}
+					}
+					continue
+				}
+				if c.inRoot(sc) && sc.Blocks != nil {
+					for ai, a := range ci.Common().Args {
+						if a == v && ai < len(sc.Params) {
+							out = append(out, flow(sc, sc.Params[ai], depth+1)...)
+						}
+					}
+				}
+			}
 		}
-		l0, ok0 := vals[0].(*ssa.Lookup)
-		l1, ok1 := vals[1].(*ssa.Lookup)
-		if !ok0 || !ok1 {
-			continue
+		return out
+	}
+	type cand struct {
+		param int
+		d     dest
+	}
+	var cands []cand
+	for _, b := range pf.Blocks {
+		for _, ins := range b.Instrs {
+			lk, ok := ins.(*ssa.Lookup)
+			if !ok {
+				continue
+			}
+			p, ok := lk.X.(*ssa.Parameter)
+			if !ok || p.Type().String() != "map[uint16]uint64" {
+				continue
+			}
+			for _, d := range flow(pf, lk, 0) {
+				cands = append(cands, cand{paramIndex(p), d})
+			}
 		}
-		p0, okp0 := l0.X.(*ssa.Parameter)
-		p1, okp1 := l1.X.(*ssa.Parameter)
-		if okp0 && okp1 {
-			docs, freq, site = paramIndex(p0), paramIndex(p1), s
+	}
+	// the statistics record: one writeUvarints call with exactly two values,
+	// both lookups in (different) map parameters
+	for _, a := range cands {
+		for _, b := range cands {
+			if a.d.call == b.d.call && a.d.n == 2 && a.d.pos == 0 && b.d.pos == 1 && a.param != b.param {
+				docs, freq, site = a.param, b.param, a.d.call
+			}
 		}
 	}
 	return
@@ -189,7 +241,7 @@ func uniq(in []string) []string {
 func init() {
 	register(&Rule{
 		Name:  "STAT-UNITS",
-		Floor: 4,
+		Floor: 2,
 		Doc:   "the two statistics lanes are identified from the code (docs lane: maps reaching persistFields' 2nd parameter / Segment.fieldDocs; freq lane: 3rd parameter / Segment.fieldFreqs). Every update of a freq-lane map adds a term-frequency quantity (Field.Length(), Posting.Frequency()); every update of a docs-lane map adds 1 per element of a per-document set or the cardinality of the per-field document tracker; values decoded from the file go to the lane of their position",
 		Run: func(c *Ctx, scope string, r *Report) {
 			p := c.mapOriginProv()
